@@ -309,6 +309,9 @@ def apply_set(cp, prop, v, model, assigned):
 REPAIRABLE = ("C18:write:year-lt-1000", "C18:revision:bool-accepted-reads-0")
 
 
+_FIRST_DEFAULT = {}
+
+
 def run_history(case, rec=None, known=None):
     """Execute one history; raises Violation. With `known` (search mode) the findings in REPAIRABLE
     do not end the history."""
@@ -340,6 +343,16 @@ def run_history(case, rec=None, known=None):
 
     got = read_all(cp, "open")
     check_types(got, "open")
+    if not had_core:
+        # the default part must not depend on what happened to packages opened earlier in this process:
+        # every first access on this deck reads the same (the creation time-stamp `modified` apart)
+        ref = _FIRST_DEFAULT.setdefault(deck, {k: v for k, v in got.items() if k != "modified"})
+        now = {k: v for k, v in got.items() if k != "modified"}
+        if now != ref:
+            diff = sorted(k for k in ref if ref[k] != now.get(k))
+            raise Violation("C18:default-part:depends-on-earlier-packages",
+                            "default core properties of a fresh package differ from those of the first one opened "
+                            "in this process: %s" % [(k, ref[k], now.get(k)) for k in diff][:4])
     assigned = set()
     model = dict(got)
     if had_core:
@@ -785,7 +798,9 @@ def replay(case):
     S.schema()
     case = _norm_case(case)
     if "ops" in case:
-        return collect(run_history, case)
+        # run the history twice: state leaking between packages of one process (e.g. a shared default
+        # core-properties element) only shows on the second package
+        return collect(run_history, case) or collect(run_history, case)
     out = []
     for v in read_violations(case):
         out.append({"key": v.key, "message": v.message, "case": core.to_jsonable(case)})
